@@ -55,6 +55,17 @@ pub fn check_info(si: &SourceInfo, src: &str) -> Result<(), (String, String)> {
                 return Err((sig.into(), format!("get_pos_pair({idx}) = ({l},{c}), expected ({exp_l},{exp_c}) for text of {} bytes, {nlines} lines", src.len())));
             }
         }
+        // the answer must not depend on what was asked before: the same questions in descending order, zig-zagging around every line break,
+        // and (small texts) every ordered pair of questions
+        let exp = |idx: usize| -> (usize, usize) { let l = if idx <= src.len() { starts.partition_point(|s| *s <= idx) - 1 } else { nlines - 1 }; (l, idx - starts[l]) };
+        let ask = |idx: usize, how: &str| -> Result<(), (String, String)> {
+            let got = si.get_pos_pair(idx);
+            if got != exp(idx) { return Err((format!("pos-depends-on-history:{how}"), format!("get_pos_pair({idx}) = {got:?} when asked {how}, expected {:?} (text of {} bytes, {nlines} lines)", exp(idx), src.len()))); }
+            Ok(())
+        };
+        for idx in (0..=src.len() + 10).rev() { ask(idx, "in descending order")?; }
+        for st in &starts { let n = *st; for idx in [n, n.saturating_sub(1), n + 1, n.saturating_sub(2), n, src.len(), n.saturating_sub(1), 0, n] { ask(idx, "zig-zagging around a line break")?; } }
+        if src.len() <= 40 { for i in 0..=src.len() + 2 { for j in 0..=src.len() + 2 { ask(i, "first of a pair")?; ask(j, "right after another position")?; } } }
         Ok(())
     }
 }
